@@ -52,8 +52,10 @@ def typestate(R: Report, rule: str, f, engine, results, subject: str) -> None:
             tail = flat_tail(d.events)
             # what the deciding guard of this raise is about (last decision taken on the path before the raise)
             conds = [e for e in tail if e.kind == "cond" and e is not ev]
-            cand_txts = [str(c_.args.get("term", "")) + " " + c_.name for c_ in reversed(conds[-3:])] if conds else [strip(t_[1]) for t_ in reversed(pr.trail[-3:])]
-            sig = next((g_ for g_ in (guard_signature(t_).split("+")[0] for t_ in cand_txts) if g_ != "-"), "-")
+            cand_txts = [str(c_.args.get("term", "")) + " " + c_.name + " " + str(c_.args.get("def", "")) for c_ in reversed(conds[-3:])] if conds else [strip(t_[1]) for t_ in reversed(pr.trail[-3:])]
+            # the most specific thing the last few decisions were about (fixed priority, independent of their order)
+            words = {w_ for t_ in cand_txts for w_ in guard_signature(t_).split("+")}
+            sig = next((w_ for w_ in ("outdeg", "indeg", "time", "edge", "node", "seg", "trackid", "key", "none") if w_ in words), "-")
             construct = raise_key(ev) + (f" [guard on {sig}]" if ev.name != "AssertionError" else "")
             if d.dirty:
                 R.fail(
